@@ -6,7 +6,7 @@ package main
 //   PARSE-ERR | REJECT | OK <TAB> n <TAB> B <TAB> N <TAB> S <TAB> RT
 //   B  = n*n bits, row-major: EqualType(body_i, body_j, env)
 //   N  = n*n bits: EqualType(name Qi, name Qj, env)   (LabelType nodes with the definition's mode)
-//   S  = n entries hex(String) ":" hex(StringWithModality) ":" hex(StringWithOuterModality), space separated
+//   S  = n entries hex(String) ":" hex(StringWithModality) ":" hex(StringWithOuterModality) ":" hex(dump), space separated
 //   RT = n characters: 1 when `type RtI = <head mode> <String() of body_i>` appended to the text parses
 //        back (real parser, real mode inference) to a type with the same dump as body_i, 0 when the
 //        dump differs, E when the text does not parse
@@ -120,7 +120,7 @@ func eqObs(text string) string {
 	strs := make([]string, 0, n)
 	for _, q := range qs {
 		t := q.def.SessionType
-		strs = append(strs, hex.EncodeToString([]byte(t.String()))+":"+hex.EncodeToString([]byte(t.StringWithModality()))+":"+hex.EncodeToString([]byte(t.StringWithOuterModality())))
+		strs = append(strs, hex.EncodeToString([]byte(t.String()))+":"+hex.EncodeToString([]byte(t.StringWithModality()))+":"+hex.EncodeToString([]byte(t.StringWithOuterModality()))+":"+hex.EncodeToString([]byte(process.VerifDumpType(t))))
 	}
 	return "OK\t" + strconv.Itoa(n) + "\t" + string(bodies) + "\t" + string(names) + "\t" + strings.Join(strs, " ") + "\t" + roundTrip(text, qs)
 }
@@ -144,9 +144,14 @@ func formRtObs(text string) string {
 			res[i] = 'E'
 			continue
 		}
-		res[i] = bit(process.VerifDumpForm(again[0].Body, false) == process.VerifDumpForm(p.Body, false))
+		res[i] = bit(noPol(process.VerifDumpForm(again[0].Body, false)) == noPol(process.VerifDumpForm(p.Body, false)))
 	}
 	return "OK\t" + string(res) + "\t" + strings.Join(strs, " ")
+}
+
+// explicit polarity annotations are not printed by String() (and ignored by EqualForm)
+func noPol(d string) string {
+	return strings.ReplaceAll(strings.ReplaceAll(d, " + _)", " _ _)"), " - _)", " _ _)")
 }
 
 func init() {
